@@ -1,4 +1,5 @@
 import SqlObjVerif.Lemmas.Slice
+import SqlObjVerif.Lemmas.SliceX
 /-!
 # C10 — slicing / indexing a select behaves like slicing / indexing the full result list
 
@@ -160,6 +161,39 @@ theorem C10_limit_eq_prefix (d : Dialect) (xs : List α) (n : Nat) :
     evalModel d xs [(none, some (n : Int))] none = .rows (xs.take n) := by
   rw [C10_chain_eq_list_slicing]
   simp [pyEval, pySlice_none_n]
+
+
+/-! ### The same statements about the source as TRANSLATED on this run
+
+`Extracted.sliceProg` / `Extracted.indexProg` are the two branches of `SelectResults.__getitem__`
+translated from /repo's AST into the PyMini deep embedding; `evalX` runs them. -/
+
+/-- the translated slice branch behaves, on every input, like the hand-written model -/
+theorem C10_translated_slice_eq_model (d : Dialect) (xs : List α) (w : Win) (a b : Option Int) :
+    sliceSelX d xs w a b = sliceSel d xs w a b :=
+  sliceSelX_eq d xs w a b
+
+/-- the translated index branch behaves, on every input, like the hand-written model -/
+theorem C10_translated_index_eq_model (d : Dialect) (xs : List α) (w : Win) (i : Int) :
+    indexSelX d xs w i = indexSel d xs w i :=
+  indexSelX_eq d xs w i
+
+/-- **C10 for the translated source.**  Chains of slices and an optional index, executed by the
+    PyMini translation of the current `__getitem__`, equal the same operations on the Python list. -/
+theorem C10_translated_chain_eq_list_slicing (d : Dialect) (xs : List α) (ops : List SliceOp)
+    (ix : Option Int) : evalX d xs ops ix = pyEval xs ops ix := by
+  rw [← C10_chain_eq_list_slicing d xs ops ix]
+  unfold evalX evalModel
+  have hstep : stepSelX d xs = stepSel d xs := by
+    funext s op
+    obtain ⟨a, b⟩ := op
+    cases s <;> simp [stepSelX, stepSel, sliceSelX_eq]
+  rw [hstep]
+  generalize ops.foldl (stepSel d xs) (Sel.q ⟨0, none⟩) = s
+  cases s <;> cases ix <;> simp [finishX, finish, indexSelX_eq] <;> rfl
+
+example : evalX .sqlite [10, 11, 12, 13, 14, 15] [(some 1, some 5), (some (-3), none)] (some 0) = .item 12 := by decide
+example : evalX .mysql [10, 11, 12, 13, 14, 15] [(some 0, some 2), (some 3, none)] none = .rows [] := by decide
 
 /-! ### Non-vacuity: concrete chains, including the ones that used to fail -/
 example : evalModel .sqlite [10, 11, 12, 13, 14, 15] [(some 0, some 2), (some 3, none)] none = .rows [] := by decide
